@@ -1,0 +1,14 @@
+//go:build verif
+
+// Machine-checked contracts for package cosign (comment-only; see /verif/DESIGN.md).
+
+package cosign
+
+//@ func attachTimestamp
+//@   property C10
+//@   ghost tok *pkcs7.ContentInfoSignedData = nil
+//@   ghost verified bool = false
+//@   before call invoke pkcs9.Timestamper.Timestamp(_, _, r): assert @timestamp_requested_for_this_signature_value sameslice(r.EncryptedDigest, rawSignature)
+//@   on call invoke pkcs9.Timestamper.Timestamp(_, _, _) ret (t, e): tok = t
+//@   on call pkcs9.Verify(t, d, _) ret (cs, e): verified = (e == nil && t == tok && sameslice(d, rawSignature))
+//@   ensures @timestamp_attached_only_if_it_covers_this_signature ret0 == nil && old(cert.Timestamper) != nil ==> verified
